@@ -44,6 +44,9 @@ type Prog struct {
 	// their bodies in the analysed SSA form (see inline.go).
 	InlinedHelpers []string
 	InlineFailure  string // non-empty if the inlining had to be abandoned
+	// Renames lists "old -> new" for functions and fields of the reviewed tree that were recognised under a new name.
+	Renames []string
+	renamed map[string]*ssa.Function
 }
 
 //go:embed baseline_funcs.txt
@@ -52,12 +55,97 @@ var baselineFuncsTxt string
 // BaselineFuncs is the inventory of top-level functions and methods of the reviewed tree.
 func BaselineFuncs() map[string]bool {
 	m := map[string]bool{}
-	for _, l := range strings.Split(baselineFuncsTxt, "\n") {
-		if l = strings.TrimSpace(l); l != "" && !strings.HasPrefix(l, "#") {
-			m[baselineKey(l)] = true
-		}
+	for k := range baselineSigs() {
+		m[k] = true
 	}
 	return m
+}
+
+// baselineSigs: function (pointer/value receiver not distinguished) -> signature of the reviewed tree.
+func baselineSigs() map[string]string {
+	m := map[string]string{}
+	for _, l := range strings.Split(baselineFuncsTxt, "\n") {
+		if l = strings.TrimSpace(l); l == "" || strings.HasPrefix(l, "#") {
+			continue
+		}
+		name, sig, _ := strings.Cut(l, "\t")
+		m[baselineKey(name)] = sig
+	}
+	return m
+}
+
+//go:embed baseline_fields.txt
+var baselineFieldsTxt string
+
+// SigString renders a signature without its receiver, package-qualified.
+func SigString(fn *ssa.Function) string {
+	sig := fn.Signature
+	return types.TypeString(types.NewSignatureType(nil, nil, nil, sig.Params(), sig.Results(), sig.Variadic()), nil)
+}
+
+// recvKey is the part of a function key in front of the function's own name.
+func recvKey(key string) string {
+	if i := strings.LastIndex(key, "."); i >= 0 {
+		return key[:i]
+	}
+	return ""
+}
+
+// detectRenames pairs functions of the reviewed tree that no longer exist with functions that are new, when
+// receiver (or package) and signature are identical and the pairing is unique both ways: a rename. The renamed
+// function stands in for the old name as an anchor and is not treated as a new helper.
+func (p *Prog) detectRenames() {
+	p.renamed = map[string]*ssa.Function{}
+	base := baselineSigs()
+	if len(base) == 0 {
+		return
+	}
+	cur := map[string]*ssa.Function{}
+	for _, fn := range p.ModuleFuncs() {
+		if fn.Parent() == nil && !p.FuncInOverlay(fn) {
+			cur[baselineKey(FuncName(fn))] = fn
+		}
+	}
+	type cand struct {
+		key string
+		fn  *ssa.Function
+	}
+	var removed []string
+	for k := range base {
+		if cur[k] == nil {
+			removed = append(removed, k)
+		}
+	}
+	var added []cand
+	for k, fn := range cur {
+		if _, ok := base[k]; !ok {
+			added = append(added, cand{k, fn})
+		}
+	}
+	sort.Strings(removed)
+	sort.Slice(added, func(i, j int) bool { return added[i].key < added[j].key })
+	for _, rk := range removed {
+		var match []cand
+		for _, a := range added {
+			if recvKey(a.key) == recvKey(rk) && SigString(a.fn) == base[rk] {
+				match = append(match, a)
+			}
+		}
+		if len(match) != 1 {
+			continue
+		}
+		// unique the other way round too
+		n := 0
+		for _, rk2 := range removed {
+			if recvKey(rk2) == recvKey(match[0].key) && base[rk2] == SigString(match[0].fn) {
+				n++
+			}
+		}
+		if n == 1 {
+			p.renamed[rk] = match[0].fn
+			p.Renames = append(p.Renames, rk+" -> "+match[0].key)
+		}
+	}
 }
 
 // AnalysisError is raised (as panic) for conditions that must never be
@@ -134,6 +222,7 @@ func Load(repo string, overlay map[string][]byte) *Prog {
 	prog, _ := ssautil.AllPackages(pkgs, ssa.InstantiateGenerics)
 	prog.Build()
 	p.SSA = prog
+	p.detectRenames()
 	if os.Getenv("DBLINT_NOINLINE") == "" {
 		failed := ""
 		func() {
@@ -142,7 +231,11 @@ func Load(repo string, overlay map[string][]byte) *Prog {
 					failed = fmt.Sprint(e)
 				}
 			}()
-			p.InlinedHelpers = p.InlineNewHelpers(BaselineFuncs())
+			bl := BaselineFuncs()
+			for _, fn := range p.renamed {
+				bl[baselineKey(FuncName(fn))] = true
+			}
+			p.InlinedHelpers = p.InlineNewHelpers(bl)
 			p.modFuncs = nil
 		}()
 		if failed != "" {
@@ -229,6 +322,38 @@ func (p *Prog) Field(rel, typ, field string) *types.Var {
 			return st.Field(i)
 		}
 	}
+	// renamed since the reviewed tree? same struct, same position, same type, and the old name is gone
+	for _, l := range strings.Split(baselineFieldsTxt, "\n") {
+		parts := strings.Split(strings.TrimSpace(l), "\t")
+		if len(parts) != 4 || parts[0] != rel+"."+typ || parts[2] != field {
+			continue
+		}
+		var idx int
+		fmt.Sscanf(parts[1], "%d", &idx)
+		if idx < st.NumFields() && types.TypeString(st.Field(idx).Type(), nil) == parts[3] {
+			// the candidate's name must itself be new (not another field of the reviewed struct)
+			known := false
+			for _, l2 := range strings.Split(baselineFieldsTxt, "\n") {
+				p2 := strings.Split(strings.TrimSpace(l2), "\t")
+				if len(p2) == 4 && p2[0] == parts[0] && p2[2] == st.Field(idx).Name() {
+					known = true
+				}
+			}
+			if !known {
+				note := rel + "." + typ + "." + field + " -> " + st.Field(idx).Name()
+				seen := false
+				for _, r := range p.Renames {
+					if r == note {
+						seen = true
+					}
+				}
+				if !seen {
+					p.Renames = append(p.Renames, note)
+				}
+				return st.Field(idx)
+			}
+		}
+	}
 	Fail("anchor: field %s.%s.%s not found", rel, typ, field)
 	return nil
 }
@@ -244,6 +369,25 @@ func (p *Prog) Func(rel, recv, name string) *ssa.Function {
 }
 
 func (p *Prog) TryFunc(rel, recv, name string) *ssa.Function {
+	if f := p.tryFunc(rel, recv, name); f != nil {
+		return f
+	}
+	// renamed since the reviewed tree?
+	pkgName := rel
+	if i := strings.LastIndex(rel, "/"); i >= 0 {
+		pkgName = rel[i+1:]
+	}
+	if rel == "" {
+		pkgName = "dblib"
+	}
+	key := pkgName + "." + name
+	if recv != "" {
+		key = "(" + pkgName + "." + recv + ")." + name
+	}
+	return p.renamed[key]
+}
+
+func (p *Prog) tryFunc(rel, recv, name string) *ssa.Function {
 	path := Module
 	if rel != "" {
 		path += "/" + rel
